@@ -54,3 +54,10 @@ def execute(plan):
 
 def shrink_candidates(plan):
     return pipeline.shrink_c08b(plan) if plan['world'] == 'pf8' else decworld.shrink_candidates(plan)
+
+
+def evidence_extra(records):
+    inter = set()
+    for r in records.values():
+        inter.update(r.get('res', {}).get('info', {}).get('interleavings', []))
+    return {'distinct_pool_interleavings': {'count': len(inter), 'measure': 'distinct (task count, workers, sequence of workers given the baton at seams) per pool run'}}
